@@ -101,6 +101,10 @@ def guarded(f):
         if type(e) is RuntimeError:
             return "runtime"
         msg = str(e)
+        import traceback as _tb
+        if any(fr.name in ("_import_python_object", "scope_extract_call_proxy") or fr.name == "__init__" and "_import_python_object" in (fr.line or "")
+               for fr in _tb.extract_tb(e.__traceback__)):
+            return "outside"  # raised while importing a Python object for `.call` / a dotted non-built-in `.type`
         if isinstance(e, IndentationError):
             import traceback
             if any(fr.name == "normalize_call_expression" for fr in traceback.extract_tb(e.__traceback__)):
@@ -225,6 +229,13 @@ def run(ctx):
             suffix = rng.choice([".value_min", ".__class__", " and None", ", int()", "()", "[0]", "+1", " or 1", ".x", ".multi",
                                  " if 0 else 3", " == 1", ".phil_type", ".__dict__", " is None", ".size_min", "(1)", " ,"])
             text = "v = 1\n  .type = %s%s\n" % (t, suffix)
+            if rng.random() < 0.4:
+                # ill-typed constructor arguments
+                base = rng.choice(["int", "float", "ints", "floats", "choice"])
+                arg = rng.choice(["value_min", "value_max", "size", "size_min", "size_max", "allow_none", "multi",
+                                  "allow_none_elements", "bogus"])
+                val = rng.choice(["int", "'a'", "[1]", "1j", "None", "1.5", "-1", "0", "True", "(1,2)", "{}", "float('nan')", "2**70"])
+                text = "v = 1\n  .type = %s(%s=%s)\n" % (base, arg, val)
             ctx.count("type_suffixes")
         elif k == 0:
             text = gen.soup(rng)
@@ -236,6 +247,9 @@ def run(ctx):
         if k in (0, 1, 2):
             out = guarded(lambda: freephil.parse(input_string=text))
             note("parse", text, out)
+            if out == "ok":
+                # whatever was accepted can be printed with all its attributes
+                note("show", text, guarded(lambda: freephil.parse(input_string=text).as_str(attributes_level=3)))
             cases.append({"text": text})
             reqs.append(["parse", enc(text)])
             impls.append(call_j(lambda: freephil.parse(input_string=text), obj_j))
